@@ -14,6 +14,10 @@ def m(name, props, expect, edits, note=''):
 exec(open(os.path.join(HERE, 'mutants.py')).read())
 
 bad = 0
+wanted = {m_[0] + '.patch' for m_ in M}
+for f_ in os.listdir(HERE):
+    if f_.endswith('.patch') and f_ not in wanted:
+        os.remove(os.path.join(HERE, f_))
 for name, props, expect, edits, note in M:
     out = ['# property: %s' % ','.join(props)]
     for e in ([expect] if isinstance(expect, str) else expect):
